@@ -6,6 +6,8 @@ import mtgen
 PROP = "C13"
 COQ_TARGETS = ["Props/C13.vo"]
 TRANSLATOR = ["dispatch", "validators"]
+# of the dispatch tables this property uses the two validation tables only
+TRANSLATOR_RELEVANT = {"dispatch": r"validate|Validate|ParsedSwiftMessage|parsed_message"}
 
 TRUSTED = [
     "Coq 8.16.1 kernel (coqc), vm_compute for gen_shapes_ok / gen_adapters_ok; no axioms (every theorem: Closed under the global context)",
